@@ -222,6 +222,10 @@ theorem mtsChunkSizeFl_close (cd rate : Rat) :
 reader computes.  `1/16`: an exact tie, both models agree. -/
 example : chunkSizeFl (3242591731706757 / 144115188075855872) = 14 ∧
     chunkSize (3242591731706757 / 144115188075855872) = 13 := by decide +kernel
+/-- … there the last place of the product is 2^-49 and the bound of `chunkSizeFl_close` is attained up to it:
+`14 - 600·rate = 1/2 + (13.5 - 600·rate)` with `0 < 13.5 - 600·rate ≤ 2^-50` -/
+example : PhyVerif.Fl.ulpExp (600 * (3242591731706757 / 144115188075855872)) = -49 ∧
+    (14 : Rat) ≤ 600 * (3242591731706757 / 144115188075855872) + 1 / 2 + PhyVerif.Fl.pow2 (-50) := by decide +kernel
 example : chunkSizeFl (1 / 16) = 38 ∧ chunkSizeFl 30000 = 18000000 ∧ chunkSizeFl (1 / 1200) = 0 := by decide +kernel
 example : PhyVerif.Fl.IsDouble ((600 : Rat) * (1 / 16)) := ⟨75, -1, by decide, by decide +kernel⟩
 example : readerChunkBoundsFl [30, 55, 41] (3242591731706757 / 144115188075855872) =
